@@ -993,6 +993,13 @@ func (obj *Package) GetFunc(name string) (fi *FuncInfo) {
 // DefLambda registers a named lambda function. This is called by defun.
 func (obj *Package) DefLambda(name string, lam *Lambda, fc func(args List) Object, kind Symbol) (fi *FuncInfo) {
 	obj.mu.Lock()
+	if xfi := obj.funcs[name]; xfi != nil && xfi.Pkg != nil && xfi.Pkg != obj && !xfi.Pkg.Locked {
+		// The name is inherited from a package that is used: it is that
+		// package's function that is redefined and it stays that package's.
+		owner := xfi.Pkg
+		obj.mu.Unlock()
+		return owner.DefLambda(name, lam, fc, kind)
+	}
 	if xlam := obj.lambdas[name]; xlam != nil {
 		xlam.Doc = lam.Doc
 		xlam.Forms = lam.Forms
